@@ -35,7 +35,13 @@ func vhBuildTree(g *vhDigits, depth, maxw int, label string) Stack {
 		s = Basic()
 	}
 	cfg, _ := s.config()
-	cfg.opt = cfgFlag(nondetUint16()) & (negidx | fwdidx)
+	// Traverse only reads: no option other than the two index options may matter
+	cfg.opt = cfgFlag(nondetUint16()) & vhOptMask
+	if g.next(5) == 0 {
+		// a validity policy that rejects the node: Index does not care, so
+		// neither may Traverse
+		cfg.vpf = func(...any) error { return errorf("rejected by policy") }
+	}
 	w := 1 + g.next(maxw)
 	for i := 0; i < w; i++ {
 		name := label + string(rune('a'+i))
@@ -108,6 +114,8 @@ func VH_C07(p []int) {
 	verifAssert(gok == wok, "success-flag")
 	if wok {
 		verifAssert(vhSameElem(got, want), "value")
+		// exactly the value Index hands out: same dynamic type, not a converted copy
+		verifAssert(vhFormOf(got) == vhFormOf(want), "value-dynamic-type")
 	} else {
 		verifAssert(got == nil, "failure-returns-nil")
 	}
